@@ -9,7 +9,7 @@ Local Open Scope Z_scope.
 Definition ran_regs (rs : list ores) : list Z :=
   flat_map (fun r => (if 0 <? o_ninv r then [o_hreg r] else []) ++ map fst (o_un r)) rs.
 Definition obs_ran (x : obs) : list Z :=
-  match x with ObBatch rs _ _ _ => ran_regs rs | _ => [] end.
+  match x with ObBatch rs _ _ _ => ran_regs rs | ObPark _ rs _ _ _ => ran_regs rs | _ => [] end.
 
 Lemma outcomes_ran : forall c t kn b qs b' rs, outcomes c t kn b qs b' rs ->
   forall reg, In reg (ran_regs rs) -> exists e, In e t /\ h_reg e = reg.
@@ -79,7 +79,7 @@ Section GenericHist.
   Lemma tinv_step : forall U c s o, tinv s -> tinv (fst (step' U c s o)).
   Proof.
     intros U c s o Hi. pose proof Hi as [Hn Hr Hlt].
-    destruct o as [name | name acc | name | k | opens | slot how | slot side q | dir wt]; unfold step'; cbn [step fst].
+    destruct o as [name | name acc | name | k | opens | slot how | slot side q | dir wt | popens]; unfold step'; cbn [step fst].
     - destruct (tinv_add s name [name] Hi) as [A B].
       constructor; cbn; [apply (add_handler_live _ _ _ _ Hn) | exact A | exact B].
     - destruct (tinv_add s name acc Hi) as [A B].
@@ -93,12 +93,13 @@ Section GenericHist.
     - destruct (find _ (held s)) as [[sl p]|]; cbn [fst]; [constructor; cbn; assumption | exact Hi].
     - exact Hi.
     - constructor; cbn; assumption.
+    - destruct (run_batch _ _ _ _ _ _ _) as [b rs]. constructor; cbn; assumption.
   Qed.
 
   Lemma absent_step : forall U c s o reg, tinv s -> absent reg s -> absent reg (fst (step' U c s o)).
   Proof.
     intros U c s o reg [Hn Hr Hlt] [Ha1 Ha2].
-    destruct o as [name | name acc | name | k | opens | slot how | slot side q | dir wt]; unfold step'; cbn [step fst].
+    destruct o as [name | name acc | name | k | opens | slot how | slot side q | dir wt | popens]; unfold step'; cbn [step fst].
     - split; cbn; [lia|]. intros x Hx. unfold add_handler in Hx. apply in_app_or in Hx.
       destruct Hx as [Hx|[Hx|[]]]; [apply Ha2; eapply remove_handler_subset; exact Hx|]. subst x. cbn. lia.
     - split; cbn; [lia|]. intros x Hx. unfold add_handler in Hx. apply in_app_or in Hx.
@@ -109,6 +110,7 @@ Section GenericHist.
     - destruct (find _ (held s)) as [[sl p]|]; cbn [fst]; split; cbn; assumption.
     - split; assumption.
     - split; cbn; assumption.
+    - destruct (run_batch _ _ _ _ _ _ _) as [b rs]. split; cbn; assumption.
   Qed.
 
   (* the op that ends the life of the closure registered under [name] *)
@@ -128,7 +130,7 @@ Section GenericHist.
       assert (x = e) by (eapply (NoDup_map_inj h_reg); eauto). subst x.
       rewrite Hname, Z.eqb_refl in Hneq. discriminate. }
     pose proof (Hlt e He) as Hlte.
-    destruct o as [n | n acc | n | k | opens | slot how | slot side q | dir wt]; cbn in Hrep; try contradiction; subst n;
+    destruct o as [n | n acc | n | k | opens | slot how | slot side q | dir wt | popens]; cbn in Hrep; try contradiction; subst n;
       unfold step'; cbn [step fst]; split; cbn; try lia.
     - intros x Hx. unfold add_handler in Hx. rewrite (remove_handler_filter _ _ Hn) in Hx.
       apply in_app_or in Hx. destruct Hx as [Hx|[Hx|[]]]; [apply Hfil; exact Hx|]. subst x. cbn. lia.
@@ -145,7 +147,7 @@ Section GenericHist.
     cbn [trace] in Hin. destruct (step ms_select ms_lazy U c s o) as [s' y] eqn:E.
     destruct Hin as [Hin|Hin].
     - inversion Hin; subst o' x. clear Hin.
-      destruct o as [name | name acc | name | k | opens | slot how | slot side q | dir wt]; cbn [step] in E;
+      destruct o as [name | name acc | name | k | opens | slot how | slot side q | dir wt | popens]; cbn [step] in E;
         try (inversion E; subst; intros []; fail).
       + destruct (run_batch _ _ _ _ _ _ _) as [b rs] eqn:Eb. inversion E; subst. cbn [obs_ran].
         intros Hr. apply (run_batch_outcomes ms_select ms_lazy ms_select_some ms_lazy_spec) in Eb.
@@ -154,6 +156,10 @@ Section GenericHist.
       + destruct (find _ (held s)) as [[sl p]|]; inversion E; subst; intros [].
       + destruct (find _ (held s)) as [[sl p]|]; [destruct (c_rcmgr c); [|destruct (side =? 0)]|];
           inversion E; subst; intros [].
+      + destruct (run_batch _ _ _ _ _ _ _) as [b rs] eqn:Eb. inversion E; subst. cbn [obs_ran].
+        intros Hr. apply (run_batch_outcomes ms_select ms_lazy ms_select_some ms_lazy_spec) in Eb.
+        destruct (outcomes_ran _ _ _ _ _ _ _ Eb reg Hr) as [e [He Hreg]].
+        destruct Ha as [_ Ha]. apply (Ha e He). exact Hreg.
     - pose proof (tinv_step U c s o Hi) as Hi'. pose proof (absent_step U c s o reg Hi Ha) as Ha'.
       unfold step' in Hi', Ha'. rewrite E in Hi', Ha'. cbn [fst] in Hi', Ha'.
       eapply IH; eauto.
@@ -242,7 +248,7 @@ Section GenericScope.
 
   Lemma sinv_step : forall U c s o, sinv_st s -> sinv_st (fst (step ms_select ms_lazy U c s o)).
   Proof.
-    intros U c s o Hs. destruct o as [name | name acc | name | k | opens | slot how | slot side q | dir wt]; cbn [step fst];
+    intros U c s o Hs. destruct o as [name | name acc | name | k | opens | slot how | slot side q | dir wt | popens]; cbn [step fst];
       try exact Hs.
     - destruct (run_batch _ _ _ _ _ _ _) as [b rs] eqn:Eb. cbn [fst]. unfold sinv_st. cbn.
       apply (run_batch_outcomes ms_select ms_lazy ms_select_some ms_lazy_spec) in Eb.
@@ -259,6 +265,9 @@ Section GenericScope.
         rewrite <- E. apply in_map. tauto.
       + intros x Hx. apply filter_In in Hx. apply Sl. tauto.
     - unfold sinv_st. cbn. constructor; cbn; try (intros; reflexivity); [constructor | intros x []].
+    - destruct (run_batch _ _ _ _ _ _ _) as [b rs] eqn:Eb. cbn [fst]. unfold sinv_st. cbn.
+      apply (run_batch_outcomes ms_select ms_lazy ms_select_some ms_lazy_spec) in Eb.
+      apply (outcomes_sinv _ _ _ _ _ _ _ Eb). exact Hs.
   Qed.
 
   Lemma sinv_run : forall U c ops s, sinv_st s -> sinv_st (run ms_select ms_lazy U c s ops).
